@@ -1,5 +1,6 @@
 import PySMT.Proofs.C06Infix3
 import PySMT.Proofs.C06Examples
+import PySMT.Proofs.BuildAgree
 /-!
 # C06 — derived constructors and infix operators: the property theorems
 
@@ -459,6 +460,23 @@ theorem call_denotes (I : Interp) (f : Sym) (as : List Term) (hp : f.params ≠ 
     eval I t = I.fn f (as.map (eval I)) := by
   rw [call_method f as hp hl] at h
   exact function_denotes I h hne
+
+/-! ## consolidation: the three models of the constructors agree where they overlap -/
+
+/-- `Impl/Simp/Build.lean` (the constructors the simplifier rebuilds with) agrees with `Impl/Mk.lean`:
+for every constructor `c` of `Build`, `Mk.c args = .ok t → Build.c args = t` (the fields of
+`BuildAgree.BuildAgreesMk`; only `BVZExt`/`BVSExt` need the operand to be well-typed with
+well-formed `bvComp` payloads, because their type check does not force the operand's width) -/
+theorem build_agrees_mk : PySMT.BuildAgree.BuildAgreesMk :=
+  PySMT.BuildAgree.build_agrees_mk
+
+/-- `Impl/SubstBuild.lean` (`rebuild` = `IdentityDagWalker` through the constructors) agrees with
+`Impl/Mk.lean`: on well-typed new children, whenever the `Mk` constructor that
+`IdentityDagWalker.walk_<op>` calls (`BuildAgree.identityWalk`) returns `t`, `rebuild op p as = t` -/
+theorem rebuild_agrees_mk {op : Op} {p : Payload} {as : List Term} {t : Term}
+    (hwt : ∀ a ∈ as, a.wt = true) (hc : ∀ a ∈ as, PySMT.BuildAgree.compOK a = true)
+    (h : PySMT.BuildAgree.identityWalk op p as = .ok t) : PySMT.Build.rebuild op p as = t :=
+  PySMT.BuildAgree.rebuild_agrees_mk hwt hc h
 
 /-! ## non-vacuity: the hypotheses `… = .ok t` are satisfiable -/
 
